@@ -519,9 +519,12 @@ def run(ctx) -> None:
 
 
 def replay(ctx, w, sig=None) -> Optional[str]:
-    r = _replay1(w)
-    if r is None and w.get("part") in ("A", "C", "E", "D"):
+    # first in the decode history it was seen under (a direct replay would itself change process-wide caches), then alone
+    r = None
+    if w.get("part") in ("A", "C", "E", "D") and "shard" in w and sig:
         r = _in_context(w["part"], w, sig)
+    if r is None:
+        r = _replay1(w)
     return r
 
 
